@@ -5,6 +5,7 @@ from vlib import coqterm as ct
 
 sys.path.insert(0, os.path.join(os.path.dirname(os.path.dirname(os.path.abspath(__file__))), "gen"))
 import tn
+import tnloops
 
 HEADER = "From Qib Require Import TN.TNCheck.\n"
 CAP = 40000
@@ -369,6 +370,10 @@ def gen_ops(rng, desc, thorough, prefix=None, maxlen=12):
                 nmerge += 1
         except ValueError:
             pass
+        except Exception:
+            # the implementation misbehaves on the prefix itself (anything but a refusal): no random continuation,
+            # the whole prefix goes to the oracles, which report it (the harness used to die here: 0 cases, no failing input)
+            return [list(o) for o in prefix]
     for _ in range(L):
         stn = scratch.net
         r = rng.random()
@@ -892,7 +897,19 @@ def run(ctx):
                        "TNModel.joins_starve; only its final comparison is translated and proved to have the assertion's threshold); that this refusal "
                        "fires exactly when the assertion of the deletion loop would is proved for a finite family only (C08_..._bounded) and otherwise checked "
                        "on every merge of the run by an independent union-find classification; "
-                       "all loops (rename, merge_tensors/bonds, get_bond_axes, as_einsum unification/condensation, tree builder) stay hand-modelled")
+                       "the remaining loops (get_bond_axes, as_einsum unification/condensation, tree builder) stay hand-modelled")
+    ctx.trusted.append("TN loops (gen/tnloops.py -> Run.GenTNLoops, fail-closed statement-by-statement `ast` walk): the bodies of _rename_tensor, rename_tensor, rename_bond, "
+                       "merge_tensors, merge_bonds, SymbolicTensor.transpose, SymbolicTensorNetwork.transpose and every statement of merge except the five pinned statements of its "
+                       "leg-count refusal (validation loop with its property reads; deep copy = nothing in a value model; the two relabelling "
+                       "loops, dictionary updates, fusion of the virtual tensors, the join loop with axes_map, del_axes, the deletion loop with its assertion, the "
+                       "final selection) are regenerated as Gallina state transformers and PROVED EQUAL to TNModel.rename_tensor_priv / rename_tensor / rename_bond / merge_tensors / "
+                       "merge_bonds / merge_changes / merge for all arguments and to TNModel.transpose when len(bids) = len(shape) on the virtual tensor "
+                       "(C08_source_merge_loops_are_model, C08_source_rename_transpose_loops_are_model: gen_* = TNLoops.lit_* by reflexivity, lit_* = model proved "
+                       "in TN/TNLoops.v); trusted in this translation: objects are referenced through (dictionary, key) - two names are the same object only if they were "
+                       "fetched under the same key (merge_tensors / merge_bonds return early when the two ids are equal), every list is owned by one object (the "
+                       "ownership oracles of this check test that on the implementation), `copy.deepcopy` really copies, a comprehension index `l[i] for i in axes_map` "
+                       "is in range (for transpose: behind its permutation test); the iteration orders of the two Python sets `keys() & keys()` are inputs (ordT, ordB) recorded from the call; "
+                       "the defaults `join_axes=None`, `axes=None` are pinned")
     ctx.rules.append("random consistent networks (0-6 tensors, degree<=4, bond dims 1-3, hyper-bonds, multi-edges, self-traces, shared "
                      "open bonds, identity wires, negative/colliding ids) x random operation sequences (length<=12; rename_tensor, "
                      "rename_bond, transpose incl. refused ones, merge with colliding ids / shared datarefs equal+unequal / joins "
@@ -908,8 +925,9 @@ def run(ctx):
                      "tensor-free member, then the history continues (rename what came from the operand, merge again with a closed and an open network, "
                      "with itself, transpose, random surgery); counts, TensorNetwork.is_consistent, value, both contractions after every step. "
                      "non-trivial = sequence with >=1 accepted operation on a network with >=1 bond")
-    ctx.lib(["TN/TNCheck", "TN/TNSem", "TN/TNMergeValue", "TN/TNConsistentConv", "TN/TNGenBase", "TN/TNMergeGuard"])
+    ctx.lib(["TN/TNCheck", "TN/TNSem", "TN/TNMergeValue", "TN/TNConsistentConv", "TN/TNGenBase", "TN/TNMergeGuard", "TN/TNLoops"])
     ctx.translate("GenTN", tn.generate)
+    ctx.translate("GenTNLoops", tnloops.generate_loops)
     ctx.props()
     rng = ctx.rng
     cases = []
